@@ -24,9 +24,11 @@ import (
 // process, so that a stack overflow is observed as a crash of that input.
 
 type c07Builder struct {
+	aliased map[string]bool // names that some alias refers to: only those carry an anchor
 	g      map[string]any
 	nodes  map[string]*yaml.Node
 	akeys  bool // write some keys as aliases to anchored scalars
+	spell  bool // write the keys "12" and "true" in non-canonical spellings (0xc, 1_2, +12, True, TRUE)
 	keyAnc map[string]*yaml.Node
 	rng    *rand.Rand
 }
@@ -35,7 +37,10 @@ func (b *c07Builder) node(name string) *yaml.Node {
 	if n, ok := b.nodes[name]; ok {
 		return n
 	}
-	n := &yaml.Node{Kind: yaml.MappingNode, Tag: "!!map", Anchor: name}
+	n := &yaml.Node{Kind: yaml.MappingNode, Tag: "!!map"}
+	if b.aliased == nil || b.aliased[name] {
+		n.Anchor = name
+	}
 	b.nodes[name] = n // registered before the body is built: cycles close on it
 	entries, _ := b.g[name].([]any)
 	for _, e := range entries {
@@ -46,7 +51,9 @@ func (b *c07Builder) node(name string) *yaml.Node {
 		} else {
 			ks, _ := em["k"].(string)
 			k = &yaml.Node{Kind: yaml.ScalarNode, Tag: "!!str", Value: ks}
-			if b.akeys && b.rng.Intn(3) == 0 {
+			if tag, sp := c07Spell(ks, b.rng); b.spell && tag != "" {
+				k = &yaml.Node{Kind: yaml.ScalarNode, Tag: tag, Value: sp}
+			} else if b.akeys && b.rng.Intn(3) == 0 {
 				anc, ok := b.keyAnc[ks]
 				if !ok {
 					anc = &yaml.Node{Kind: yaml.ScalarNode, Tag: "!!str", Value: ks, Anchor: "key_" + ks}
@@ -81,9 +88,24 @@ func (b *c07Builder) value(v map[string]any) *yaml.Node {
 	return nil
 }
 
+// c07Spell: a spelling of a key that yaml.v3 resolves to a non-string scalar whose
+// canonical key form is ks ("" tag: the key has no such spelling).
+func c07Spell(ks string, rng *rand.Rand) (tag, spelling string) {
+	switch ks {
+	case "12":
+		return "!!int", []string{"12", "0xc", "0xC", "1_2", "+12", "0o14", "0b1100"}[rng.Intn(7)]
+	case "true":
+		return "!!bool", []string{"true", "True", "TRUE"}[rng.Intn(3)]
+	}
+	return "", ""
+}
+
 // text renders the graph as flow-style YAML when every alias refers to an anchor
 // whose definition has already started; ok=false otherwise.
 type c07Text struct {
+	spell   bool
+	rng     *rand.Rand
+	aliased map[string]bool
 	g       map[string]any
 	defined map[string]bool
 	ok      bool
@@ -95,7 +117,10 @@ func (t *c07Text) mapping(name string, b *strings.Builder) {
 		return
 	}
 	t.defined[name] = true
-	b.WriteString("&" + name + " {")
+	if t.aliased == nil || t.aliased[name] {
+		b.WriteString("&" + name + " ")
+	}
+	b.WriteString("{")
 	entries, _ := t.g[name].([]any)
 	for i, e := range entries {
 		if i > 0 {
@@ -105,7 +130,12 @@ func (t *c07Text) mapping(name string, b *strings.Builder) {
 		if m, _ := em["m"].(bool); m {
 			b.WriteString("<<: ")
 		} else {
-			b.Write(asciiJSON(em["k"]))
+			ks, _ := em["k"].(string)
+			if tag, sp := c07Spell(ks, t.rng); t.spell && tag != "" {
+				b.WriteString(sp)
+			} else {
+				b.Write(asciiJSON(em["k"]))
+			}
 			b.WriteString(": ")
 		}
 		t.value(em["v"].(map[string]any), b)
@@ -213,7 +243,8 @@ func c07Decode(c obj, mode string) obj {
 	var run func() res
 	switch mode {
 	case "node", "mapunmarshal":
-		b := &c07Builder{g: g, nodes: map[string]*yaml.Node{}, keyAnc: map[string]*yaml.Node{}, akeys: c["akeys"] == true, rng: newRand(seed, "c07")}
+		b := &c07Builder{g: g, nodes: map[string]*yaml.Node{}, keyAnc: map[string]*yaml.Node{}, akeys: c["akeys"] == true, spell: c["spell"] == true, rng: newRand(seed, "c07"),
+			aliased: c07Aliased(g)}
 		rn := b.node(root)
 		if mode == "node" {
 			doc := &yaml.Node{Kind: yaml.DocumentNode, Content: []*yaml.Node{rn}}
@@ -226,7 +257,7 @@ func c07Decode(c obj, mode string) obj {
 			}
 		}
 	case "text", "parse":
-		t := &c07Text{g: g, defined: map[string]bool{}, ok: true}
+		t := &c07Text{g: g, defined: map[string]bool{}, ok: true, aliased: c07Aliased(g), spell: c["spell"] == true, rng: newRand(seed, "c07text")}
 		var sb strings.Builder
 		t.mapping(root, &sb)
 		if !t.ok {
@@ -481,7 +512,7 @@ func c07RandomCase(rng *rand.Rand) obj {
 		if cyclic && c07Size(g, root, map[string]int{}) > 2000 {
 			continue
 		}
-		return obj{"g": g, "root": root, "akeys": rng.Intn(2) == 0, "child": cyclic, "cyc": false}
+		return obj{"g": g, "root": root, "akeys": rng.Intn(2) == 0, "spell": rng.Intn(2) == 0, "child": cyclic, "cyc": false}
 	}
 }
 
@@ -515,4 +546,26 @@ func c07Size(g obj, name string, memo map[string]int) int {
 	}
 	memo[name] = total
 	return total
+}
+
+// c07Aliased: the mapping names that at least one alias refers to.
+func c07Aliased(g map[string]any) map[string]bool {
+	out := map[string]bool{}
+	var walk func(v map[string]any)
+	walk = func(v map[string]any) {
+		switch v["t"] {
+		case "a":
+			out[v["n"].(string)] = true
+		case "q":
+			for _, x := range v["e"].([]any) {
+				walk(x.(map[string]any))
+			}
+		}
+	}
+	for _, es := range g {
+		for _, e := range es.([]any) {
+			walk(e.(map[string]any)["v"].(map[string]any))
+		}
+	}
+	return out
 }
